@@ -538,7 +538,7 @@ class Evaluator:
                     hd = ",".join(f"{a}:{e}" for a, e in j["hidden"]) or "-"
                     recs.append(f"C13\t{j['hex']}\t{d}\t{dl}\t{mk}\t{hd}")
                 else:
-                    recs.append(f"C14\t{j['hex']}\t{d}\t{j['error']}\t{j['at']}\t{j['token']}")
+                    recs.append(f"C14\t{j['hex']}\t{d}\t{j['error']}\t{j['at']}\t{j['token']}\t{j.get('count', 1)}")
             verd = lean_check(recs)
             for i, vd, j, d in zip(idx, verd, progs, impl):
                 info = {"variant": vt[0], "dump": d, "program": unhex(j["hex"])}
